@@ -439,13 +439,6 @@ func c46CheckClearsign(rt *rapid.T, c *ev.Collector, p *keyPool, g *gpgEnv) {
 			rt.Fatalf("VF-VIOLATION: property=C46 %s: embedded signature verifies from a one-piece reader but not from a %s reader: %v", desc, nr.name, verr)
 		}
 	}
-	// and the armored signature may arrive in pieces as well
-	for _, nr := range readerFamily(rt, "sr", text) {
-		all, rerr := io.ReadAll(nr.r)
-		if rerr != nil || !bytes.Equal(all, text) {
-			rt.Fatalf("harness: reader %s is broken", nr.name)
-		}
-	}
 	if second != nil && second != signer {
 		ring2 := openpgp.EntityList{p.pubRing[indexOfKey(p, second)]}
 		if _, verr := openpgp.CheckDetachedSignature(ring2, bytes.NewReader(blk.Bytes), bytes.NewReader(sigBytes)); verr != nil {
